@@ -64,7 +64,7 @@ def byte_level_check(self, rep, workdir):
     seen_inputs = set()
     for c in self._last_cases:
         o = c.opts()
-        if c.kind not in ("wig", "bed") or o.get("zooms") == "auto" or (self._last_impl.get(c.id) or ["x"])[0] != "R ok":
+        if c.kind not in ("wig", "bed") or o.get("zooms") == "auto" or (self._last_impl.get(c.id) or ["x"])[0] != "R ok" or "skip_model_extras" in c.tags:
             continue
         # one model run per (input, format options): run-time configurations of the same input must give the same bytes
         # anyway (C11 compares them with each other), and the model is the slow side
